@@ -34,10 +34,36 @@ def c04_models(tier, clock="after_newdate", order="by_time"):
                       invariants=C04_INV, clock=clock, order=order)]
 
 
+def subsecond_model(tier, invariants, clock="after_newdate", order="by_time", name="subsecond"):
+    """a lattice in units of 0.1 ms: events one tick (0.0001 s) and half a second beyond the latency bound, and either
+    side of midnight; three timesteps within two days so that times stay inside 32 bits"""
+    from fractions import Fraction
+    u = 10000                                   # ticks per second
+    dl = 86400 * u
+    g = [23 * 3600 * u, (23 * 3600 + 59 * 60) * u, dl + 30 * 60 * u]
+    Lt = 30 * u
+    cs = [
+        cand(g[0], "q", "A", 9, 9),
+        cand(g[0] + Lt, "q", "A", 10, 12),          # exactly at the bound
+        cand(g[0] + Lt + 1, "q", "B", 20, 22),      # 0.0001 s beyond it
+        cand(g[0] + Lt + u // 2, "x"),             # half a second beyond it
+        cand(g[0] + 1, "x"),                        # 0.0001 s after the timestep
+        cand(g[1], "q", "A", 11, 11),
+        cand(g[1] + u // 2 + 1, "q", "B", 21, 21),  # just beyond a latency of 0.5 s
+        cand(dl - 1, "x"),                          # 0.0001 s before midnight
+        cand(dl + 1, "q", "A", 12, 12),             # 0.0001 s after midnight
+        cand(g[2], "q", "A", 12, 14),
+    ]
+    return env_model(name, g, cs, [], 3 if tier == "quick" else 5, [0, u // 2, Lt], [FOLD_ALL], [(False, -1), (True, -1)],
+                     maxcalls=3, reset_anywhere=False, invariants=invariants, clock=clock, order=order,
+                     tick=Fraction(1, u), daylen=dl)
+
+
 def c04(tier, seed):
     rep = core.Report("C04", tier, seed)
-    rep.assumptions = list(ASSUME)
-    run_models(rep, c04_models(tier), clauses_of("C04"))
+    rep.assumptions = list(ASSUME) + ["a second lattice in units of 0.1 ms covers sub-second stamps around the latency bound "
+                                      "and midnight"]
+    run_models(rep, c04_models(tier) + [subsecond_model(tier, C04_INV)], clauses_of("C04"))
     return rep.finish()
 
 
